@@ -370,6 +370,23 @@ func (w *rsWorld) tracked(s *rsSub) []string {
 	return out
 }
 
+// the rows of table tracked_block of a subscriber, by number (then hash: duplicates of a number would show)
+func (w *rsWorld) trackedRows(s *rsSub) []string {
+	ctl, err := openCtl(filepath.Join(w.dir, "rd.sqlite"))
+	must(err)
+	defer ctl.Close()
+	rows, err := ctl.Query("SELECT hash FROM tracked_block WHERE subscriber_id = $1 ORDER BY num, hash", s.id)
+	must(err)
+	defer rows.Close()
+	var out []string
+	for rows.Next() {
+		var h string
+		must(rows.Scan(&h))
+		out = append(out, w.name(common.HexToHash(h)))
+	}
+	return out
+}
+
 func lst(xs []string) string {
 	if len(xs) == 0 {
 		return "-"
@@ -626,6 +643,9 @@ func (w *rsWorld) exec(line string) string {
 		for _, s := range w.subs {
 			out += fmt.Sprintf(" store%s=%s tracked%s=%s", s.id, lst(w.stored(s)), s.id, lst(w.tracked(s)))
 		}
+		for _, s := range w.subs {
+			out += fmt.Sprintf(" db%s=%s", s.id, lst(w.trackedRows(s)))
+		}
 		w.r.Count("detect-crash")
 		return out
 	case "race": // directed schedule for known finding F5, in a world of its own
@@ -641,6 +661,9 @@ func (w *rsWorld) exec(line string) string {
 		out := "up"
 		for _, s := range w.subs {
 			out += fmt.Sprintf(" store%s=%s tracked%s=%s", s.id, lst(w.stored(s)), s.id, lst(w.tracked(s)))
+		}
+		for _, s := range w.subs {
+			out += fmt.Sprintf(" db%s=%s", s.id, lst(w.trackedRows(s)))
 		}
 		w.r.Count("restart")
 		return out
